@@ -11,6 +11,7 @@ mod c11;
 mod deleg;
 mod http;
 mod lifecycle;
+mod delegcli;
 mod c06;
 mod repo;
 mod c15;
@@ -31,6 +32,7 @@ fn main() {
         "c20" => c20::run(rest),
         "c19" => c19::run(rest),
         "lifecycle" => lifecycle::run(rest),
+        "delegcli" => delegcli::run(rest),
         "c10" => editor::run(rest),
         "c17" => editor::run_update(rest),
         "c10x" => editor::run_xparty(rest),
